@@ -92,6 +92,20 @@ theorem pool_unobservable (ops : List GOp) : ∀ (w w' : PoolWorld), w.graph = w
     simp only [runG, List.foldl] at *
     exact ih _ _ (stepG_graph_indep w w' h op)
 
+/-- the copy constructor yields an exact replica of the source graph whatever the pool holds, and consumes at most
+    one pooled node per copied node -/
+theorem copyNodes_spec : ∀ (pool g : List FNode), (copyNodes pool g).2 = g ∧ (copyNodes pool g).1 = pool.drop g.length
+  | pool, [] => by simp [copyNodes]
+  | [], n :: rest => by
+    have ih := copyNodes_spec [] rest
+    simp only [copyNodes]; exact ⟨by rw [ih.1], by simp [ih.2]⟩
+  | _ :: pool, n :: rest => by
+    have ih := copyNodes_spec pool rest
+    simp only [copyNodes]; exact ⟨by rw [ih.1], by simp [ih.2]⟩
+
+theorem copy_is_replica (w : PoolWorld) : (copyGraph w).graph = w.graph := by
+  simp [copyGraph, (copyNodes_spec w.pool w.graph).1]
+
 /-! non-vacuity -/
 example : (runG ⟨[⟨[1, 2], [7]⟩], []⟩ [.addFactor [0, 1], .setData 0 [5], .eraseVar 1, .addFactor [2]]).graph
         = (runG ⟨[], []⟩ [.addFactor [0, 1], .setData 0 [5], .eraseVar 1, .addFactor [2]]).graph := by decide
